@@ -140,16 +140,37 @@ Proof.
   rewrite trace_wake_deferred. exact H2.
 Qed.
 
-Lemma ops_ok_run_event b s e now acts : ops_ok (trace s) -> ops_ok (trace (run_event b s e now acts)).
+Lemma trace_end_turn br p3 s : trace (end_turn br p3 s) = trace s.
+Proof. unfold end_turn. destruct (length p3 <? br)%nat; reflexivity. Qed.
+
+Lemma trace_send_outside now t s : trace (send_outside now t s) = trace s.
 Proof.
-  intros H. unfold run_event.
-  pose proof (ops_ok_exec_event (b_local b) (b_rt b) (b_coop b) now acts (add_trace (REvent e now) s) H) as H1.
-  destruct (exec_event _ _ _ _ _ _) as [[s1 p2] p3]; cbn [fst] in H1. exact H1.
+  unfold send_outside. destruct (get t s) as [tk|]; [|reflexivity].
+  destruct (stat tk); try reflexivity. destruct (local tk); [rewrite trace_push|]; reflexivity.
+Qed.
+
+Lemma trace_pre_hooks now pre : forall s, trace (pre_hooks now pre s) = trace s.
+Proof.
+  unfold pre_hooks. induction pre as [|a pre IH]; intros s; cbn [fold_left]; [reflexivity|].
+  rewrite IH. destruct a; cbn [do_pre]; [reflexivity|apply trace_send_outside].
+Qed.
+
+Lemma ops_ok_run_exec b tag now acts s : ops_ok (trace s) -> ops_ok (trace (run_exec b tag now acts s)).
+Proof.
+  intros H. unfold run_exec.
+  pose proof (ops_ok_exec_event (b_local b) (b_rt b) (b_coop b) now acts s H) as H1.
+  destruct (exec_event _ _ _ _ _ _) as [[s1 p2] p3]; cbn [fst] in H1.
+  unfold close; cbn [add_trace trace ops_ok]. rewrite trace_end_turn. exact H1.
+Qed.
+
+Lemma ops_ok_run_event b s e now k pre acts : ops_ok (trace s) -> ops_ok (trace (run_event b s e now k pre acts)).
+Proof.
+  intros H. unfold run_event. apply ops_ok_run_exec. rewrite trace_pre_hooks. exact H.
 Qed.
 
 Lemma ops_ok_run_events b : forall evs s e now, ops_ok (trace s) -> ops_ok (trace (fst (run_events b s e now evs))).
 Proof.
-  induction evs as [|[d acts] evs IH]; intros s e now H; cbn [run_events fst]; [exact H|].
+  induction evs as [|[[[d k] pre] acts] evs IH]; intros s e now H; cbn [run_events fst]; [exact H|].
   apply IH. apply ops_ok_run_event. exact H.
 Qed.
 
@@ -158,16 +179,18 @@ Proof.
   intros H. unfold run_end.
   pose proof (ops_ok_exec_event (b_local b) (b_rt b) (b_coop b) now [] s H) as H1.
   destruct (exec_event (b_local b) (b_rt b) (b_coop b) now [] s) as [[s1 p2] p3]; cbn [fst] in H1.
-  pose proof (ops_ok_exec_event (b_local b) (b_rt b) (b_coop b) now [] s1 H1) as H2.
-  destruct (exec_event (b_local b) (b_rt b) (b_coop b) now [] s1) as [[s2 q2] q3]; cbn [fst] in H2.
-  exact H2.
+  rewrite <- (trace_end_turn (b_rt b) p3 s1) in H1.
+  pose proof (ops_ok_exec_event (b_local b) (b_rt b) (b_coop b) now [] _ H1) as H2.
+  destruct (exec_event (b_local b) (b_rt b) (b_coop b) now [] (end_turn (b_rt b) p3 s1)) as [[s2 q2] q3]; cbn [fst] in H2.
+  unfold close; cbn [add_trace trace ops_ok]. rewrite trace_end_turn. exact H2.
 Qed.
 
 (* [run_model] lists the records oldest first; [rev] puts the newest first again *)
-Theorem ops_within_their_poll b ts evs : ops_ok (rev (run_model b ts evs)).
+Theorem ops_within_their_poll b g ts start evs : ops_ok (rev (run_model b g ts start evs)).
 Proof.
   unfold run_model.
-  pose proof (ops_ok_run_events b evs (init ts) O 0 I) as H.
-  destruct (run_events b (init ts) 0 0 evs) as [s now]; cbn [fst] in H.
+  pose proof (ops_ok_run_events b evs (run_start b (init g ts) start) O 0
+                (ops_ok_run_exec b 4 0 start (add_trace (RStart 0) (init g ts)) I)) as H.
+  destruct (run_events b (run_start b (init g ts) start) 0 0 evs) as [s now]; cbn [fst] in H.
   rewrite rev_involutive. apply ops_ok_run_end. exact H.
 Qed.
